@@ -77,7 +77,14 @@ func (d *dinst) related(p, g *Term) bool {
 		}
 		return false
 	}
-	return d.subs(g)[p] || d.subs(p)[g]
+	if d.subs(g)[p] || d.subs(p)[g] {
+		return true
+	}
+	// elements of arrays of arrays (slice memories, map tables): compare the outer arrays
+	if p.Op == "select" && g.Op == "select" && p.Args[0].S == g.Args[0].S {
+		return d.related(p.Args[0], g.Args[0])
+	}
+	return false
 }
 
 // addGround registers the closed select terms and uninterpreted applications of t as relevant.
@@ -330,11 +337,21 @@ func (d *dinst) process(h *Term, guard []*Term, fresh *[]*Term) {
 				d.done[key] = true
 				d.budget--
 				body := Subst(h.Args[0], m)
+				if hasQuantifier(body) {
+					// existentials of the instance become fresh constants (candidates for later matching)
+					var nsk []*Term
+					body = posSkolem(body, true, &nsk)
+					for _, c := range nsk {
+						d.skolems[c.S] = append(d.skolems[c.S], c)
+					}
+				}
 				if hasQuantifier(body) && (body.Op == "forall" || body.Op == "=>" || body.Op == "and") {
 					d.process(body, guard, fresh)
 				}
 				if body.Op != "forall" {
-					inst := Implies(And(guard...), body)
+					// nested quantifiers of the instance are instantiated by the recursion above; the instance itself
+					// is kept quantifier-free (a weakening)
+					inst := Implies(And(guard...), stripQuant(body))
 					if inst.Op != "true" {
 						*fresh = append(*fresh, inst)
 					}
@@ -406,7 +423,7 @@ func (q *Query) DirectedStages(rounds int) []*Query {
 	var qhyps, qf []*Term
 	for _, h := range hyps0 {
 		if hasQuantifier(h) {
-			h = posSkolem(h, true, &sks)
+			h = posSkolem(splitIff(h), true, &sks)
 		}
 		if hasQuantifier(h) {
 			qhyps = append(qhyps, h)
@@ -569,6 +586,34 @@ func posSkolem(t *Term, pol bool, sks *[]*Term) *Term {
 			*sks = append(*sks, c)
 		}
 		return posSkolem(Subst(t.Args[0], m), pol, sks)
+	}
+	return t
+}
+
+// splitIff rewrites Boolean equalities with a quantified side, a = b, into (a => b) and (b => a), so that each
+// direction has a definite polarity (one can be instantiated, the other Skolemized).
+func splitIff(t *Term) *Term {
+	if !hasQuantifier(t) {
+		return t
+	}
+	switch t.Op {
+	case "=":
+		if t.Args[0].S.K == KBool && len(t.fb) == 0 {
+			a, b := t.Args[0], t.Args[1]
+			return And(Implies(a, b), Implies(b, a))
+		}
+		return t
+	case "and", "or":
+		args := make([]*Term, len(t.Args))
+		for i, a := range t.Args {
+			args[i] = splitIff(a)
+		}
+		if t.Op == "and" {
+			return And(args...)
+		}
+		return Or(args...)
+	case "=>":
+		return Implies(t.Args[0], splitIff(t.Args[1]))
 	}
 	return t
 }
